@@ -1,0 +1,37 @@
+//go:build verif
+
+/*
+Copyright 2026 The Volcano Authors.
+
+Licensed under the Apache License, Version 2.0 (the "License");
+you may not use this file except in compliance with the License.
+You may obtain a copy of the License at
+
+    http://www.apache.org/licenses/LICENSE-2.0
+
+Unless required by applicable law or agreed to in writing, software
+distributed under the License is distributed on an "AS IS" BASIS,
+WITHOUT WARRANTIES OR CONDITIONS OF ANY KIND, either express or implied.
+See the License for the specific language governing permissions and
+limitations under the License.
+*/
+
+package framework
+
+import "volcano.sh/volcano/pkg/scheduler/api"
+
+// VerifOp is a read-only view of one recorded statement operation, for the
+// external verification harness (build tag verif only).
+type VerifOp struct {
+	Kind Operation
+	Task *api.TaskInfo
+}
+
+// VerifOps returns the operations currently recorded in the statement.
+func (s *Statement) VerifOps() []VerifOp {
+	out := make([]VerifOp, 0, len(s.operations))
+	for _, op := range s.operations {
+		out = append(out, VerifOp{Kind: op.name, Task: op.task})
+	}
+	return out
+}
